@@ -82,7 +82,7 @@ def run_cycle_job(prog, job):
                 # never handed out again within N+1 allocations: must be retired for good
                 V = View(s.store[acell])
                 ob = [('C06.not_reissued_means_retired', z3.And(sel(V.stamp, x) == I16MIN, s0 == 32767))]
-                if eng.solver.check(*s.pc) == z3.sat: cov['retired'] = True
+                if eng.check(list(s.pc)) == z3.sat: cov['retired'] = True
                 check_obligations(eng, list(s.pc), ob, prefixes, res, lambda m, failed: viol(A, m, failed, 'cycle_' + how, N, {'x': x, 'g': g, 'allocs': k}))
                 continue
             for o2 in call_all(eng, s, new_node, [aref, Opq(nd)]):
@@ -146,7 +146,7 @@ def run_drain_job(prog, job):
         if first == 'remove_subtree':
             pre = View(A.value())
             gone = sum([z3.If(z3.And(pre.live(i), z3.Not(V0.live(i))), 1, 0) for i in range(N)], z3.IntVal(0))
-            if not cov['freed_many_at_once'] and eng.solver.check(*(s0_.pc + [gone >= 2])) == z3.sat: cov['freed_many_at_once'] = True
+            if not cov['freed_many_at_once'] and eng.check(s0_.pc + [gone >= 2]) == z3.sat: cov['freed_many_at_once'] = True
         # reference FIFO order of the free list in the start state: walk
         work = [(s0_, [], 0)]
         while work:
@@ -169,7 +169,7 @@ def run_drain_job(prog, job):
                 if eng.solver.check(*(s.pc + [z3.UGE(nfree, BV64(2))])) == z3.sat: cov['drained_two_or_more'] = True
                 if eng.solver.check(*(s.pc + [z3.UGE(nfree, BV64(1)), z3.ULE(nfree, BV64(N - 1))])) == z3.sat: cov['grew_after_drain'] = True
                 res['nontrivial'] += 1
-                if len(res['samples']) < 2 and eng.solver.check(*s.pc) == z3.sat:
+                if len(res['samples']) < 2 and eng.check(list(s.pc)) == z3.sat:
                     m = eng.solver.model()
                     res['samples'].append({'harness': 'drain', 'first': first, 'N': N, 'pre': A.model_dict(m),
                                            'returned_slots': [m.eval(i, model_completion=True).as_long() for (i, _, _) in got]})
@@ -322,7 +322,7 @@ def run_history_job(prog, job):
             V1 = View(o1.state.store[acell])
             for i in range(N):
                 ob.append(('C08.payload_frame[%d]%s' % (i + 1, tag1), z3.Implies(z3.And(A.live(i), V1.live(i)), z3.And(V2.is_data[i], V2.data[i] == A.data[i]))))
-            if k >= 2 and eng.solver.check(*s2.pc) == z3.sat: cov['freed_two_or_more'] = True
+            if k >= 2 and eng.check(list(s2.pc)) == z3.sat: cov['freed_two_or_more'] = True
             check_obligations(eng, list(s2.pc), ob, prefixes, res, lambda m, f, k=k: hv(m, f, 'drain', {'allocs': k}))
             res['nontrivial'] += 1
             if not final_ops: continue
@@ -444,4 +444,90 @@ def confirm_history(prop, v):
         if not ok:
             if status == 'not_reproduced': status = 'unreachable'
         elif bad: status = 'reproduced'
+    return status, detail
+
+
+# ---------------------------------------------------------------------------------------------
+def run_append_value_equiv_job(prog, job):
+    """C03: append_value(v) leaves the arena equal to new_node(v) followed by append (path-pair differential from the same
+    symbolic state, live parent). C08: dropping the arena drops every live payload exactly once."""
+    t0 = time.time()
+    N = job['N']
+    prefixes = tuple(p + '.' for p in job['props'])
+    eng, A, st, acell = base_ctx(prog, N)
+    res = new_result(job)
+    t = z3.BitVec('t', 64); nd = z3.BitVec('newdata', 8)
+    live = [A.live(i) for i in range(N)]
+    eng.solver.add(z3.UGE(t, 1), z3.ULE(t, N), sel(live, t))
+    if eng.solver.check() != z3.sat:
+        res['vacuous'] = True; return res
+    aref = Ref(acell, ())
+    idt = mk_id(t, sel(A.stamp, t))
+    mv = lambda m, failed: dict(viol(A, m, failed, 'append_value_equiv', N, {'t': t}), confirm='confirm_equiv')
+    left = []
+    for o in call_all(eng, st, find_fn(prog, 'NodeId', 'append_value'), [idt, Opq(nd), aref]):
+        res['paths'] += 1; res['steps'] += o.state.steps
+        if o.kind == 'return': left.append((o.state, o.value))
+        else: check_obligations(eng, list(o.state.pc), [('C03.append_value_no_panic_on_live_parent', F_)], prefixes, res, mv)
+    right = []
+    for o in call_all(eng, st, find_fn(prog, 'Arena', 'new_node'), [aref, Opq(nd)]):
+        res['paths'] += 1; res['steps'] += o.state.steps
+        if o.kind != 'return': continue
+        for o2 in call_all(eng, o.state, find_fn(prog, 'NodeId', 'append'), [idt, o.value, aref]):
+            res['paths'] += 1; res['steps'] += o2.state.steps
+            if o2.kind == 'return': right.append((o2.state, o.value))
+            else: check_obligations(eng, list(o2.state.pc), [('C03.new_node_then_append_no_panic', F_)], prefixes, res, mv)
+    import specs
+    for (sl, idl) in left:
+        for (sr, idr) in right:
+            pc = list(sl.pc) + list(sr.pc)
+            if eng.check(pc) != z3.sat: continue
+            ob = specs.arena_equal(View(sl.store[acell]), View(sr.store[acell]), 'C03.append_value_equals_new_node_then_append')
+            ob.append(('C03.append_value_returns_same_id', z3.And(zb(idl.f[0].f[0]) == zb(idr.f[0].f[0]), zb(idl.f[1].f[0]) == zb(idr.f[1].f[0]))))
+            check_obligations(eng, pc, ob, prefixes, res, mv)
+            res['nontrivial'] += 1
+    # ---- C08: dropping the whole arena
+    dv = prog.free.get('drop_value')
+    if dv is not None and any(p.startswith('C08') for p in prefixes):
+        s0 = st.copy()
+        val = s0.store[acell]
+        for o in call_all(eng, s0, dv, [val]):
+            res['paths'] += 1
+            if o.kind != 'return': continue
+            drops = o.state.drops
+            livedata = [z3.If(A.live(i), z3.ZeroExt(8, A.data[i]), z3.BitVecVal(256 + i, 16)) for i in range(N)]
+            distinct = z3.Distinct(*livedata) if N > 1 else T_
+            ob = []
+            for i in range(N):
+                cnt = sum([z3.If(z3.And(zbool(c), e == A.data[i]), 1, 0) for (c, e) in drops], z3.IntVal(0))
+                ob.append(('C08.arena_drop_drops_each_live_payload_once[%d]' % (i + 1), z3.Implies(z3.And(distinct, A.live(i)), cnt == 1)))
+            check_obligations(eng, list(o.state.pc), ob, prefixes, res, mv)
+    if eng.solver.check() == z3.sat:
+        res['samples'].append({'harness': 'append_value(v) vs new_node(v); append', 'N': N, 'pre': A.model_dict(eng.solver.model())})
+    res['feas_queries'] = eng.nq; res['solver_time'] += eng.tq
+    res['wall'] = time.time() - t0
+    return res
+
+
+def confirm_equiv(prop, v):
+    import replay
+    pre = v['pre']; a = v['args']
+    detail = {}; status = 'not_reproduced'
+    for profile in ('dev', 'release'):
+        base = replay.construct_script(pre)
+        n0 = len(base)
+        l1 = base + ['append_value s%d 77 rnew' % a['t'], 'dump']
+        l2 = base + ['new rnew 77', 'append s%d rnew' % a['t'], 'dump']
+        r1 = replay.run_script(l1, profile); r2 = replay.run_script(l2, profile)
+        try:
+            got = replay.parse_dump(r1[n0 - 1][1]); ok = replay.same_state(got, pre)
+            d1 = replay.parse_dump(r1[n0 + 1][1]); d2 = replay.parse_dump(r2[n0 + 2][1])
+            differs = not replay.same_state(d1, d2) or r1[n0][1] != r2[n0][1]
+        except Exception as e:
+            ok = False; differs = False
+        detail[profile] = {'pre_ok': ok, 'differs': differs}
+        detail.setdefault('script', l1)
+        if not ok:
+            if status == 'not_reproduced': status = 'unreachable'
+        elif differs: status = 'reproduced'
     return status, detail
